@@ -822,53 +822,82 @@ Definition path_is1 (p : list step) (k : string) : bool := match p with [s] => s
 Definition path_is_values_name (p : list step) : bool :=
   match p with [a; i; b] => step_is_key a "values" && step_is_any_idx i && step_is_key b "name" | _ => false end.
 
-(* Unguarded = the pinned code: .find/.lower are called on whatever the
-   constant holds, and only OSError is caught around inet_aton/inet_pton.
-   Guarded = proposed_fixes/C09-specials-guards.diff: constants that are not
-   StringConstant are left alone and ValueError is caught as well. *)
+(* defect variants of the special-value pass (see special_atom).
+   special_mode: Unguarded = the pinned code: .find/.lower are called on whatever the
+     constant holds, and only OSError is caught around inet_aton/inet_pton;
+     Guarded = proposed_fixes/C09-specials-guards.diff: constants that are not
+     StringConstant are left alone and ValueError is caught as well.
+   regex_mode: LowerRegex = the pinned code lower-cases the constant of every
+     operator on a registry-key path, MATCHES included; KeepRegex =
+     proposed_fixes/C09-regkey-matches.diff leaves the regular expression alone. *)
 Inductive special_mode := Unguarded | Guarded.
+Inductive regex_mode := LowerRegex | KeepRegex.
+Record variant := mkVariant { v_special : special_mode; v_regex : regex_mode }.
+Definition is_matches (o : cop) : bool := match o with OpMatches => true | _ => false end.
 
-(* the text a .find/.lower call would operate on *)
-Definition special_text (m : special_mode) (k : const) : res (option (ustring * (ustring -> const))) :=
+(* which canonicalisation applies to an object path *)
+Inductive sp_kind := SpNone | SpReg | SpIp (v6 : bool).
+
+Definition special_kind (t : ustring) (p : list step) : sp_kind :=
+  if ustr_eqb t (u "windows-registry-key") then
+    if path_is1 p "key" || path_is_values_name p then SpReg else SpNone
+  else if ustr_eqb t (u "ipv4-addr") then (if path_is1 p "value" then SpIp false else SpNone)
+  else if ustr_eqb t (u "ipv6-addr") then (if path_is1 p "value" then SpIp true else SpNone)
+  else SpNone.
+
+(* the rewriting of the text `s` held in the constant's .value; mk rebuilds the constant.
+   strict = the constant is not a StringConstant (HexConstant / BinaryConstant, whose
+   .value is a str too, so the pinned code rewrites the hex / base64 TEXT): lower-casing
+   keeps such a text well-formed, an address rewrite does not (the later bytes.fromhex /
+   b64decode may raise, depending on what the constant is compared with) -- that case is
+   outside the model. *)
+Definition special_text (m : special_mode) (k : sp_kind) (strict : bool) (s : ustring) : res (option ustring) :=
   match k with
-  | KP (PStr s) => Ok (Some (s, fun s' => KP (PStr s')))
-  | KP (PHex _) | KP (PBin _) =>
-    (* .value of these is a str too: the pinned code rewrites the hex/base64 text; not modelled *)
-    match m with Unguarded => Err EUnmodelled | Guarded => Ok None end
-  | _ => match m with Unguarded => Err EAttribute | Guarded => Ok None end
+  | SpNone => Ok None
+  | SpReg => Ok (Some (lower s))
+  | SpIp v6 =>
+    match ip_canon v6 s with
+    | CanonNul => match m with Unguarded => Err EValue | Guarded => Ok None end
+    | CanonKeep => Ok None
+    | CanonTo s' => if strict then (if ustr_eqb s' s then Ok None else Err EUnmodelled) else Ok (Some s')
+    end
   end.
 
 (* SpecialValueCanonicalization.transform_comparison *)
-Definition special_atom (m : special_mode) (a : atom) : res atom :=
+Definition special_atom (v : variant) (a : atom) : res atom :=
+  let m := v_special v in
   let set_rhs k := mkAtom (a_type a) (a_path a) (a_op a) (a_neg a) k in
-  if ustr_eqb (a_type a) (u "windows-registry-key") then
-    if path_is1 (a_path a) "key" || path_is_values_name (a_path a) then
-      t <- special_text m (a_rhs a) ;;
-      match t with
-      | Some (s, mk) => Ok (set_rhs (mk (lower s)))
-      | None => Ok a
+  let kind := match special_kind (a_type a) (a_path a), v_regex v with
+              | SpReg, KeepRegex => if is_matches (a_op a) then SpNone else SpReg
+              | k, _ => k
+              end in
+  match kind with
+  | SpNone => Ok a
+  | _ =>
+    match a_rhs a with
+    | KP (PStr s) =>
+      t <- special_text m kind false s ;;
+      Ok (match t with Some s' => set_rhs (KP (PStr s')) | None => a end)
+    | KP (PHex s) =>
+      match m with
+      | Guarded => Ok a
+      | Unguarded => t <- special_text m kind true s ;;
+                     Ok (match t with Some s' => set_rhs (KP (PHex s')) | None => a end)
       end
-    else Ok a
-  else
-    let v4 := ustr_eqb (a_type a) (u "ipv4-addr") in
-    let v6 := ustr_eqb (a_type a) (u "ipv6-addr") in
-    if (v4 || v6) && path_is1 (a_path a) "value" then
-      t <- special_text m (a_rhs a) ;;
-      match t with
-      | Some (s, mk) =>
-        match ip_canon v6 s with
-        | CanonNul => match m with Unguarded => Err EValue | Guarded => Ok a end
-        | CanonKeep => Ok a
-        | CanonTo s' => Ok (set_rhs (mk s'))
-        end
-      | None => Ok a
+    | KP (PBin s) =>
+      match m with
+      | Guarded => Ok a
+      | Unguarded => t <- special_text m kind true s ;;
+                     Ok (match t with Some s' => set_rhs (KP (PBin s')) | None => a end)
       end
-    else Ok a.
+    | _ => match m with Unguarded => Err EAttribute | Guarded => Ok a end
+    end
+  end.
 
 (* ComparisonExpressionTransformer.transform specialised to
    SpecialValueCanonicalization; this first pass is also where parenthetical
    nodes disappear.  Its `changed` result is always False. *)
-Fixpoint cspecial (m : special_mode) (e : cexpr0) : res cexpr :=
+Fixpoint cspecial (m : variant) (e : cexpr0) : res cexpr :=
   match e with
   | Atom0 a => a' <- special_atom m a ;; Ok (Atom a')
   | And0 l => l' <- mapM (cspecial m) l ;; Ok (CAnd l')
@@ -880,7 +909,7 @@ Fixpoint cspecial (m : special_mode) (e : cexpr0) : res cexpr :=
    ChainTransformer(comp_special, settle_simplify, comp_dnf, settle_simplify) *)
 Definition csettle (fuel : nat) (e : cexpr) : res (cexpr * bool) := settle fuel (fun x => Ok (csimplify x)) e.
 
-Definition cnormalize (m : special_mode) (fuel : nat) (e0 : cexpr0) : res (cexpr * bool) :=
+Definition cnormalize (m : variant) (fuel : nat) (e0 : cexpr0) : res (cexpr * bool) :=
   e <- cspecial m e0 ;;
   ' (e1, c1) <- csettle fuel e ;;
   ' (e2, c2) <- cdnf fuel e1 ;;
@@ -952,7 +981,7 @@ Definition oops_of (o : oop) (e : oexpr) : option (list oexpr) :=
         ObservationExpressionTransformer whose only callback is
         transform_observation); parenthetical nodes are dropped here and
         dropping one counts as a change ---- *)
-Fixpoint onormcmp (m : special_mode) (fuel : nat) (e : oexpr0) : res (oexpr * bool) :=
+Fixpoint onormcmp (m : variant) (fuel : nat) (e : oexpr0) : res (oexpr * bool) :=
   match e with
   | Obs0 c => ' (c', ch) <- cnormalize m fuel c ;; Ok (Obs c', ch)
   | OAnd0 l => rs <- mapM (onormcmp m fuel) l ;; Ok (OAnd (map fst rs), existsb snd rs)
@@ -1106,7 +1135,7 @@ Fixpoint odnf (fuel : nat) (e : oexpr) : res (oexpr * bool) :=
 
 (* ---- _get_pattern_normalizer():
         ChainTransformer(normalize_comp_expr, obs_settle_simplify, obs_dnf, obs_settle_simplify) ---- *)
-Definition onormalize (m : special_mode) (fuel : nat) (p : oexpr0) : res oexpr :=
+Definition onormalize (m : variant) (fuel : nat) (p : oexpr0) : res oexpr :=
   ' (e0, _) <- onormcmp m fuel p ;;
   ' (e1, _) <- osettle fuel e0 ;;
   ' (e2, _) <- odnf fuel e1 ;;
@@ -1114,7 +1143,7 @@ Definition onormalize (m : special_mode) (fuel : nat) (p : oexpr0) : res oexpr :
   Ok e3.
 
 (* equivalent_patterns on the two parsed patterns *)
-Definition equiv (m : special_mode) (fuel : nat) (p q : oexpr0) : res bool :=
+Definition equiv (m : variant) (fuel : nat) (p q : oexpr0) : res bool :=
   n1 <- onormalize m fuel p ;;
   n2 <- onormalize m fuel q ;;
   Ok (is_eq (ocmp n1 n2)).
@@ -1122,7 +1151,7 @@ Definition equiv (m : special_mode) (fuel : nat) (p q : oexpr0) : res bool :=
 (* find_equivalent_patterns: positions of the members reported equivalent.
    (The generator raises at the first member that fails, after having yielded
    the earlier matches; consuming it with list() loses those, as here.) *)
-Fixpoint find_go (m : special_mode) (fuel : nat) (n : oexpr) (i : nat) (ps : list oexpr0) : res (list nat) :=
+Fixpoint find_go (m : variant) (fuel : nat) (n : oexpr) (i : nat) (ps : list oexpr0) : res (list nat) :=
   match ps with
   | [] => Ok []
   | p :: r =>
@@ -1130,7 +1159,7 @@ Fixpoint find_go (m : special_mode) (fuel : nat) (n : oexpr) (i : nat) (ps : lis
     rest <- find_go m fuel n (S i) r ;;
     Ok (if is_eq (ocmp n np) then i :: rest else rest)
   end.
-Definition find_equiv (m : special_mode) (fuel : nat) (p : oexpr0) (ps : list oexpr0) : res (list nat) :=
+Definition find_equiv (m : variant) (fuel : nat) (p : oexpr0) (ps : list oexpr0) : res (list nat) :=
   n <- onormalize m fuel p ;; find_go m fuel n 0 ps.
 
 (* ------------------------------------------------------------------ *)
@@ -1217,7 +1246,7 @@ Definition show_res {A} (sh : A -> string) (r : res A) : string :=
 Definition show_nats (l : list nat) : string := join "," (map show_nat l).
 
 (* the three kinds of result line *)
-Definition line_norm (m : special_mode) (fuel : nat) (p : oexpr0) : string := show_res show_oexpr (onormalize m fuel p).
-Definition line_equiv (m : special_mode) (fuel : nat) (p p' : oexpr0) : string := show_res show_bool (equiv m fuel p p').
-Definition line_find (m : special_mode) (fuel : nat) (p : oexpr0) (ps : list oexpr0) : string :=
+Definition line_norm (m : variant) (fuel : nat) (p : oexpr0) : string := show_res show_oexpr (onormalize m fuel p).
+Definition line_equiv (m : variant) (fuel : nat) (p p' : oexpr0) : string := show_res show_bool (equiv m fuel p p').
+Definition line_find (m : variant) (fuel : nat) (p : oexpr0) (ps : list oexpr0) : string :=
   show_res show_nats (find_equiv m fuel p ps).
